@@ -53,17 +53,27 @@ type SAct struct {
 }
 
 type LoopCase struct {
-	Native        bool      `json:"native"`
-	Start         []SChange `json:"start,omitempty"`         // data present before the syncer starts
-	PeerAtStart   []SPeer   `json:"peer_at_start,omitempty"` // a peer snapshot already in the bucket at start-up
-	Plan          []SAct    `json:"plan"`
-	AllowF9       bool      `json:"allow_f9,omitempty"`     // known-finding reproduction only
-	ReceiveOnly   bool      `json:"receive_only,omitempty"` // instance runs with Options.ReceiveOnly (C03 only: nothing is uploaded)
+	Native      bool      `json:"native"`
+	Start       []SChange `json:"start,omitempty"`         // data present before the syncer starts
+	PeerAtStart []SPeer   `json:"peer_at_start,omitempty"` // a peer snapshot already in the bucket at start-up
+	Plan        []SAct    `json:"plan"`
+	AllowF9     bool      `json:"allow_f9,omitempty"`     // known-finding reproduction only
+	ReceiveOnly bool      `json:"receive_only,omitempty"` // instance runs with Options.ReceiveOnly (C03 only: nothing is uploaded)
 	// Sweeper: the tomb sweeper is configured (370 days retention; its first pass is an hour away, so it never
 	// runs). Every generated peer timestamp is then older than the stale-marker cutoff: a peer's deletion
 	// marker must still only ever act as a version in last-writer-wins, never delete a newer local write.
 	Sweeper bool `json:"sweeper,omitempty"`
-	ExcludedEmpty int       `json:"excluded_empty,omitempty"`
+	// Force: storage_force_snapshot_interval is so short that every loop iteration uploads, whether
+	// or not anything changed locally (the "is there a local change" question is then asked by code paths
+	// that otherwise never run). C09's "without needing the forced snapshot" is moot in such a case;
+	// the C03 oracle applies unchanged.
+	Force bool `json:"force,omitempty"`
+	// SweeperRuns: the tomb sweeper really runs, every millisecond, with a retention of a hundred years
+	// (nothing ever expires, no marker is ever stale): its write transactions are all empty, i.e. never
+	// recorded by LMDB - Lightning Stream's own transactions of that kind must not be confused with the
+	// application's.
+	SweeperRuns   bool `json:"sweeper_runs,omitempty"`
+	ExcludedEmpty int  `json:"excluded_empty,omitempty"`
 }
 
 var loopYieldPoints = []string{"sync.iter", "sync.before-next", "sync.before-load", "load.after-txn", "sync.after-load",
@@ -132,6 +142,12 @@ func runLoopCase(c LoopCase, o *vcore.Obs) (*loopStats, error) {
 	// memory limits are C16's business: leave room for the update being merged, one waiting and one downloading
 	conf.MemoryDecompressedSnapshots = 4
 	conf.MemoryDownloadedSnapshots = 4
+	if c.Force {
+		conf.StorageForceSnapshotInterval = time.Microsecond
+	}
+	if c.SweeperRuns && !c.Sweeper {
+		conf.Sweeper = config.Sweeper{Enabled: true, RetentionDays: 36500, Interval: time.Millisecond, FirstInterval: time.Millisecond, LockDuration: time.Millisecond, ReleaseDuration: time.Millisecond}
+	}
 	if c.Sweeper {
 		conf.Sweeper = config.Sweeper{Enabled: true, RetentionDays: 370, Interval: time.Hour, FirstInterval: time.Hour, LockDuration: time.Millisecond, ReleaseDuration: time.Millisecond}
 	}
@@ -139,7 +155,16 @@ func runLoopCase(c LoopCase, o *vcore.Obs) (*loopStats, error) {
 	h := b.Handle("a")
 	nd := NewNode("a", env, h, conf, lc, syncer.Options{ReceiveOnly: c.ReceiveOnly})
 	defer nd.Forget()
-	defer nd.Stop()
+	defer func() {
+		nd.Stop()
+		if c.SweeperRuns {
+			// the sweeper goroutine notices the cancellation on its own time: the LMDB must not be closed
+			// under its feet (closing an environment that is in use crashes in C code)
+			for i := 0; i < 5000 && goroutinesOf("sweeper.(*Sweeper)") != ""; i++ {
+				time.Sleep(time.Millisecond)
+			}
+		}
+	}()
 
 	// ---- model
 	// shadow mode: the reference mirror (application view + versions Lightning Stream must hold)
@@ -436,7 +461,7 @@ func runLoopCase(c LoopCase, o *vcore.Obs) (*loopStats, error) {
 			}
 		case "sync.iter":
 			if iterations > 0 {
-				if !iterDirty && countStores() == storesAtIter {
+				if !iterDirty && (c.Force || countStores() == storesAtIter) {
 					quiet++
 				} else {
 					quiet = 0
@@ -730,6 +755,8 @@ func genLoopCase(t *rapid.T) LoopCase {
 	c.Native = rapid.Bool().Draw(t, "native")
 	c.ReceiveOnly = rapid.IntRange(0, 5).Draw(t, "receive_only") == 0
 	c.Sweeper = rapid.IntRange(0, 3).Draw(t, "sweeper") == 0
+	c.Force = rapid.IntRange(0, 5).Draw(t, "force") == 0
+	c.SweeperRuns = !c.Sweeper && rapid.IntRange(0, 4).Draw(t, "sweeper_runs") == 0
 	nkeys := rapid.IntRange(1, 3).Draw(t, "nkeys")
 	if rapid.IntRange(0, 2).Draw(t, "start?") > 0 {
 		for i := 0; i < rapid.IntRange(1, 3).Draw(t, "nstart"); i++ {
@@ -787,12 +814,14 @@ type enumLoop struct {
 	// NoopFirst: the preceding application commit rewrites a key with the value it already has: LMDB
 	// records a transaction, so the next merge sees "local changes", but in shadow mode its capture pass
 	// finds nothing to capture (with a no-op peer snapshot the whole merge transaction stays empty)
-	NoopFirst bool `json:"noop_first,omitempty"`
-	Sweeper   bool `json:"sweeper,omitempty"`
+	NoopFirst   bool `json:"noop_first,omitempty"`
+	Sweeper     bool `json:"sweeper,omitempty"`
+	Force       bool `json:"force,omitempty"`
+	SweeperRuns bool `json:"sweeper_runs,omitempty"`
 }
 
 func (e enumLoop) toCase() LoopCase {
-	c := LoopCase{Native: e.Native, ReceiveOnly: e.ReceiveOnly, Sweeper: e.Sweeper}
+	c := LoopCase{Native: e.Native, ReceiveOnly: e.ReceiveOnly, Sweeper: e.Sweeper, Force: e.Force, SweeperRuns: e.SweeperRuns}
 	ts := uint64(0)
 	if e.Native {
 		ts = 20
@@ -842,7 +871,7 @@ func (e enumLoop) toCase() LoopCase {
 func TestC03Enum(t *testing.T) {
 	points := loopYieldPoints[:12]
 	vcore.RunEnum(t, vcore.Config{Property: "C03", Inflight: true,
-		Rule: "fault enumeration over a fixed scenario (instance starts with two keys, a peer snapshot is merged, the application commits once, a later peer snapshot is merged, loop runs until idle): EVERY yield point (12) x kind of application change {insert, overwrite, delete, new DBI, multi-key} x {native, shadow} x {peer snapshot is a no-op, or not} x {another application commit precedes so that the iteration also captures and uploads, or not} - this covers Lightning Stream write transactions that turn out empty and ones that do not; plus the same commit with the tomb sweeper configured and stale peer markers for the keys it touches, after a same-value rewrite (a recorded application transaction with nothing to capture), and on a receive-only instance; C03 oracle after every yield, C09 oracle when idle; commits that match the listed known finding (transaction id reuse after an empty LS transaction) are deferred to the next yield and counted; " +
+		Rule: "fault enumeration over a fixed scenario (instance starts with two keys, a peer snapshot is merged, the application commits once, a later peer snapshot is merged, loop runs until idle): EVERY yield point (12) x kind of application change {insert, overwrite, delete, new DBI, multi-key} x {native, shadow} x {peer snapshot is a no-op, or not} x {another application commit precedes so that the iteration also captures and uploads, or not} - this covers Lightning Stream write transactions that turn out empty and ones that do not; plus the same commit next to a tomb sweeper that runs every millisecond without ever finding anything, with a forced snapshot in every iteration, with the tomb sweeper configured and stale peer markers for the keys it touches, after a same-value rewrite (a recorded application transaction with nothing to capture), and on a receive-only instance; C03 oracle after every yield, C09 oracle when idle; commits that match the listed known finding (transaction id reuse after an empty LS transaction) are deferred to the next yield and counted; " +
 			"non-trivial = the commit fell between two LS transactions of one loop iteration"},
 		func(yield func(enumLoop) bool) {
 			for _, native := range []bool{true, false} {
@@ -863,6 +892,14 @@ func TestC03Enum(t *testing.T) {
 						}
 						// with the tomb sweeper configured: the second peer snapshot then also carries a (stale) marker
 						if !yield(enumLoop{Native: native, Point: p, Kind: k, PeerNoop: false, LocalFirst: true, Sweeper: true}) {
+							return
+						}
+						// with a tomb sweeper that runs all the time and never finds anything to remove
+						if !yield(enumLoop{Native: native, Point: p, Kind: k, PeerNoop: true, LocalFirst: false, SweeperRuns: true}) {
+							return
+						}
+						// with forced snapshots in every iteration
+						if !yield(enumLoop{Native: native, Point: p, Kind: k, PeerNoop: false, LocalFirst: false, Force: true}) {
 							return
 						}
 						// the same commit on a receive-only instance (captures, merges, never uploads)
